@@ -1,5 +1,8 @@
 (* C10: concrete histories for the entry-point theorem (Proofs/C10Entry.v) and
-   the witness that a forced zero superficial-loss cell has to be excluded. *)
+   the former witnesses of the class K_zero_sfl_cell (a forced zero
+   superficial-loss cell made the re-run panic until the fix "treat a
+   superficial loss that rounds to zero effective cents as no superficial
+   loss"; both histories pass now). *)
 From Coq Require Import List NArith ZArith QArith Qcanon Bool Lia Sorted.
 From ACB Require Import Base.Outcome Base.QcExtra Base.Arith Model.Tx Model.Ledger Model.Sfl
      Model.DeltaList Model.App Model.Summary Model.SummaryObs Proofs.SummaryProps Proofs.C15Full Proofs.SortLayout
@@ -73,14 +76,16 @@ Proof.
   intros sums H. vm_compute in H. inversion H; subst sums. vm_compute. reflexivity.
 Qed.
 
-(* ---------------------------------------------------------------- a forced zero cell: the re-run panics
+(* ---------------------------------------------------------------- a forced zero cell: the re-run PANICKED, now passes
    default buys 10 @ $10; the spouse buys 5 and sells them at a gain (no summary
    row for her); -- date --; default sells 1 @ $9 with the cell "0!" (forced:
    not superficial), then buys 0.000000000001 shares.  The full history
    computes a superficial loss from the spouse's purchase (ignored: forced);
    the re-run sees only the tiny purchase, computes a loss that rounds to 0.00
-   and panics (Site 11, util/math.rs:93 - the panic of finding C05
-   eff-cent-zero, masked in the full history). *)
+   and panicked (Site 11, util/math.rs:93 - the panic of finding C05
+   eff-cent-zero, masked in the full history).  Since the fix the rounded
+   amount is a LessEqualZeroDecimal, the forced cell is used, the sale carries
+   no superficial loss in the re-run either and the round trip holds. *)
 Definition wsell_forced0 (sh price : Z) : action :=
   Sell (wq sh 1) (wq price 1) (wq 0 1) (wq 1 1) (wq 1 1) (Some (wq 0 1, true)).
 Definition wit5 : list tx :=
@@ -88,10 +93,10 @@ Definition wit5 : list tx :=
    wrow 3 737110 (wsell_forced0 1 9) default_aff;
    wrow 4 737115 (Buy (wq 1 1000000000000) (wq 10 1) (wq 0 1) (wq 1 1) (wq 1 1)) default_aff].
 Definition wit5_date : Z := 737105.
-Lemma wit5_fails :
+Lemma wit5_passes :
   history_ok exact wit5 = true /\ history_ok dec wit5 = true
-  /\ roundtrip_ok exact wit5_date false wit5 = false /\ roundtrip_obs_ok exact wit5_date false wit5 = false
-  /\ roundtrip_obs_ok dec wit5_date false wit5 = false
+  /\ roundtrip_ok exact wit5_date false wit5 = true /\ roundtrip_obs_ok exact wit5_date false wit5 = true
+  /\ roundtrip_obs_ok dec wit5_date false wit5 = true
   /\ K_summary_buy_in_window exact wit5_date false wit5 = false
   /\ K_zero_balance_acb exact wit5_date wit5 = false
   /\ K_idle_split_expansion exact wit5_date wit5 = false
@@ -119,9 +124,9 @@ Definition wit6 : list tx :=
   [wrow 0 737000 (wbuy 10 10) default_aff; wrow 1 737100 (wbuy 5 10) spouse_aff; wrow 2 737101 (wsell 5 12) spouse_aff;
    wrow 3 737110 (Sell (wq 1 1) (wq 19 2) (wq 0 1) (wq 1 1) (wq 1 1) (Some (wq 0 1, true))) default_aff;
    wrow 4 737115 (Buy (wq 1 10000000000) (wq 10 1) (wq 0 1) (wq 1 1) (wq 1 1)) default_aff].
-Lemma wit6_fails :
+Lemma wit6_passes :
   history_ok exact wit6 = true /\ history_ok dec wit6 = true
-  /\ roundtrip_obs_ok exact wit5_date false wit6 = false /\ roundtrip_obs_ok dec wit5_date false wit6 = false
+  /\ roundtrip_obs_ok exact wit5_date false wit6 = true /\ roundtrip_obs_ok dec wit5_date false wit6 = true
   /\ K_summary_buy_in_window exact wit5_date false wit6 = false
   /\ K_zero_balance_acb exact wit5_date wit6 = false
   /\ K_idle_split_expansion exact wit5_date wit6 = false
